@@ -105,4 +105,11 @@ def margins (H W : Int) (p : PS) : List Box :=
   [⟨p.vpos, W, 0, 0⟩, ⟨H, p.hpos, 0, 0⟩, ⟨H, W - (p.hpos + p.width), 0, p.hpos + p.width⟩,
    ⟨H - (p.vpos + p.height), W, p.vpos + p.height, 0⟩]
 
+/-- `from_altoxml`: the transcription of a re-imported line = its String CONTENTs joined by single blanks
+(`word = word + " " + text.get('CONTENT')`, no blank before the first) -/
+def reimportLine : List Str → Str
+  | [] => []
+  | [w] => w
+  | w :: r => w ++ [32] ++ reimportLine r
+
 end Alto
